@@ -2,7 +2,7 @@
 From Coq Require Import ZArith NArith List Bool Reals Floats.
 From PV Require Import Num NumR model.Optimiser model.OptSpec proofs.OptStruct proofs.OptLoop proofs.FloatFacts proofs.RealFacts.
 From PV Require Import model.Cli gen.GenCli proofs.CliFacts.
-From PV Require Import gen.GenFns proofs.SourceFacts.
+From PV Require Import gen.GenFns model.Iter model.Pipeline proofs.ListLemmas proofs.SrcOpt.
 From PV Require Import proofs.StepFacts.
 From PV Require Import proofs.SampleFloat proofs.RangeInst proofs.RatioFloat.
 
@@ -212,4 +212,18 @@ Theorem S_world_operations_are_source :
     v'; w_handles := w_handles NN w; w_calls := w_calls NN w |}).
 Proof. exact world_operations_are_source. Qed.
 Print Assumptions S_world_operations_are_source.
+
+
+Theorem C19_optimiser_source_translated :
+  translated_gen_energy_surface = true /\ translated_gen_test_acceptance = true /\
+    translated_gen_accept_score = true /\ translated_gen_cooling_factor = true /\
+    translated_gen_build = true /\ translated_gen_inner_steps = true /\ translated_gen_loops =
+    true /\ translated_gen_converged = true /\ translated_gen_ratio_update = true /\
+    translated_gen_init = true /\ translated_gen_init_count = true /\ translated_gen_loop_head =
+    true /\ translated_gen_inner_count = true /\ translated_gen_final_ok = true /\
+    translated_gen_mc_step = true /\ translated_gen_end_loop = true /\ translated_gen_clamp =
+    true /\ translated_gen_sample = true /\ translated_gen_reset_value = true /\
+    translated_gen_set_sampled = true.
+Proof. exact optimiser_source_translated. Qed.
+Print Assumptions C19_optimiser_source_translated.
 
